@@ -155,7 +155,7 @@ class Engine:
         self.relations = []
         self.cur = "?"
         self.it.range_hook = self.range_hook
-        self.it.np_hooks.update({"zeros_like": self.zeros_like, "arange": self.arange, "builtin:slice": self.slice_table, "zeros": self.np_zeros, "repeat": lambda a, k: ("repeat", a[0], a[1])})
+        self.it.np_hooks.update({"zeros_like": self.zeros_like, "arange": self.arange, "builtin:slice": self.slice_table, "zeros": self.np_zeros, "repeat": lambda a, k: ("repeat", a[0], a[1]), "full": lambda a, k: ("repeat", a[1], a[0])})
         self.dir_stores = []
         self.events = []
 
